@@ -25,6 +25,7 @@ type c15Case struct {
 	Fixture  string        `json:"fixture,omitempty"`
 	G        *gram.Grammar `json:"grammar,omitempty"`
 	Mapped   bool          `json:"mapped,omitempty"` // generated grammar built with an Upper("Ident") mapper
+	Retype   bool          `json:"retype,omitempty"` // ... and a Map function that turns some Ident tokens into Int tokens
 	Filename string        `json:"filename"`
 	InputHex string        `json:"input_hex"`
 	Input    string        `json:"input,omitempty"`
@@ -251,6 +252,32 @@ func checkC15(p *pue, c *c15Case, r *vstat.Run) outcome {
 		}
 		if !reflect.DeepEqual(o.ast, base.ast) {
 			return violationf("ast-differs", "%s: entry point %q returns a different AST than ParseString", desc, e)
+		}
+	}
+	// the same call on a parser that has not been used before (the shared one has lexed and parsed other inputs)
+	if c.G != nil {
+		var fr res
+		var ferr error
+		if m := guard(func() {
+			fb, err := buildC15(c.G, c.Mapped, c.Retype)
+			if err != nil {
+				ferr = err
+				return
+			}
+			fr.ast, fr.err = pueForGrammar(fb).parse("reader", c.Filename, in)
+		}); m == "" && ferr == nil {
+			if errText(fr.err) != errText(base.err) {
+				return violationf("error-differs", "%s: ParseString on the parser in use returns error %q, Parse(reader) on a freshly built parser returns %q", desc, errText(base.err), errText(fr.err))
+			}
+			plainOf := func(v any) string {
+				if v == nil {
+					return "<nil>"
+				}
+				return gram.Plain(reflect.ValueOf(v))
+			}
+			if plainOf(fr.ast) != plainOf(base.ast) {
+				return violationf("ast-differs", "%s: Parse(reader) on a freshly built parser returns a different AST than ParseString on the parser in use", desc)
+			}
 		}
 	}
 	// a reader that has a Name: the explicit filename wins, the reader's name is the fallback for ""
@@ -548,6 +575,28 @@ func hexBytes(h string) ([]byte, error) {
 	return []byte(lc.Input), nil
 }
 
+// buildC15 builds a generated grammar, optionally behind mappers: Upper("Ident"), and a Map function that gives Ident
+// tokens containing "b" the type Int (a type the lexer also emits natively).
+func buildC15(g *gram.Grammar, mapped, retype bool) (*gram.Built, error) {
+	var opts []participle.Option
+	if retype {
+		intType := g.Prof().Def.Symbols()["Int"]
+		opts = append(opts, participle.Map(func(t lexer.Token) (lexer.Token, error) {
+			if strings.ContainsAny(t.Value, "bB") {
+				t.Type = intType
+			}
+			// a rewrite that leaves every Ident alone but would show on a native Int token, should this
+			// function ever be applied to one
+			t.Value = strings.ReplaceAll(t.Value, "1", "I")
+			return t, nil
+		}, "Ident"))
+	}
+	if mapped {
+		opts = append(opts, participle.Upper("Ident"))
+	}
+	return gram.Build(g, opts...)
+}
+
 func TestC15(t *testing.T) {
 	fxs := fixtures.All()
 	runProp(t, "C15", c15Rule, func(t *rapid.T, r *vstat.Run) {
@@ -587,23 +636,27 @@ func TestC15(t *testing.T) {
 			return
 		}
 		g := gram.GenGrammar(t, gram.GenOpts{MaxProds: 4, MaxDepth: 3, TrapPercent: 15, PosStyles: true, Profiles: true, Parseables: true})
+		if rapid.IntRange(0, 7).Draw(t, "recsys") == 0 {
+			// recursive systems, incl. choices with an alternative that can match nothing (the library panics with a
+			// participle.Error for those: through every entry point alike)
+			g, _ = gram.GenRecSystem(t)
+		}
 		mapped := rapid.IntRange(0, 2).Draw(t, "mapped") == 0
+		retype := rapid.IntRange(0, 3).Draw(t, "retype") == 0
 		var b *gram.Built
 		var err error
 		if m := guard(func() {
 			if mapped {
 				g.CI = []string{"Ident"}
-				b, err = gram.Build(g, participle.Upper("Ident"))
-			} else {
-				b, err = gram.Build(g)
 			}
+			b, err = buildC15(g, mapped, retype)
 		}); m != "" || err != nil {
 			r.Count("build_failed_left_to_C19")
 			return
 		}
 		for i := 0; i < 3; i++ {
 			in := []byte(gram.Render(t, g, gram.GenInput(t, g), "r"))
-			c := &c15Case{G: g, Mapped: mapped, Filename: filename, InputHex: fmt.Sprintf("%x", in), Input: string(in)}
+			c := &c15Case{G: g, Mapped: mapped, Retype: retype, Filename: filename, InputHex: fmt.Sprintf("%x", in), Input: string(in)}
 			report(t, r, checkC15(pueForGrammar(b), c, r), c)
 		}
 	})
@@ -625,11 +678,7 @@ func TestC15Replay(t *testing.T) {
 		if c.G != nil {
 			var b *gram.Built
 			var err error
-			if c.Mapped {
-				b, err = gram.Build(c.G, participle.Upper("Ident"))
-			} else {
-				b, err = gram.Build(c.G)
-			}
+			b, err = buildC15(c.G, c.Mapped, c.Retype)
 			if err != nil {
 				return outcome{}
 			}
